@@ -13,13 +13,13 @@ import lib
 INVARIANTS = ["Admitted", "NormalIdempotent", "CommentsInert", "LaterWins", "SearchExact"]
 
 # family -> (N quick, N thorough)
-BOUNDS = {"kv": (3, 3), "active": (2, 2), "fixed": (2, 3), "delim": (2, 3), "search": (2, 2), "ini": (3, 4)}
+BOUNDS = {"kv": (3, 3), "active": (2, 2), "fixed": (2, 2), "delim": (2, 3), "search": (2, 2), "ini": (3, 4)}
 DEEP = {"kv": True, "active": False, "fixed": True, "delim": False, "search": False, "ini": False}   # thorough only
-NVAR = {"quick": {"kv": 1, "active": 2, "fixed": 1, "delim": 2, "search": 1, "ini": 1},
-        "thorough": {"kv": 3, "active": 3, "fixed": 4, "delim": 4, "search": 2, "ini": 3}}
-CAP = {"quick": {"kv": 5000, "active": 1000, "fixed": 11000, "delim": 3000, "search": 6000, "ini": 7500},
-       "thorough": {"kv": 10 ** 6, "active": 10 ** 6, "fixed": 10 ** 6, "delim": 10 ** 6, "search": 10 ** 6, "ini": 10 ** 6}}
-NRAND = {"quick": {"kv": 1500, "active": 800, "fixed": 2000, "delim": 1500, "search": 1500, "ini": 1500},
+NVAR = {"quick": {"kv": 1, "active": 2, "fixed": 1, "delim": 1, "search": 1, "ini": 1},
+        "thorough": {"kv": 2, "active": 3, "fixed": 2, "delim": 3, "search": 2, "ini": 2}}
+CAP = {"quick": {"kv": 3000, "active": 1000, "fixed": 6000, "delim": 2000, "search": 4000, "ini": 4000},
+       "thorough": {"kv": 30000, "active": 10 ** 6, "fixed": 60000, "delim": 20000, "search": 10 ** 6, "ini": 40000}}
+NRAND = {"quick": {"kv": 1000, "active": 500, "fixed": 1500, "delim": 1000, "search": 1000, "ini": 1000},
          "thorough": {"kv": 20000, "active": 8000, "fixed": 30000, "delim": 20000, "search": 20000, "ini": 20000}}
 
 ASSUMPTIONS = [
@@ -112,11 +112,11 @@ def run(prop, tier):
 
     def one(job):
         fam, cfgp = job
-        r = lib.run_tlc("TextHelpersMC", cfgp, workers=min(4, lib.NCPU), tag="th-" + fam, timeout=3000, raw_cases=True)
+        r = lib.run_tlc("TextHelpersMC", cfgp, workers=(2 if lib.NCPU >= 4 else 1), tag="th-" + fam, timeout=3000, raw_cases=True)
         return fam, lib.require_ok(r, "TextHelpers model " + fam)
 
     models, cases, emitted, features = [], [], 0, {}
-    with concurrent.futures.ThreadPoolExecutor(max_workers=min(3, max(1, lib.NCPU // 4))) as ex:
+    with concurrent.futures.ThreadPoolExecutor(max_workers=max(1, min(len(jobs), lib.NCPU // 2))) as ex:
         for fam, r in ex.map(one, jobs):
             raw = r.cases
             emitted += len(raw)
@@ -215,7 +215,7 @@ def run(prop, tier):
     samples = []
     for fam in sorted(BOUNDS):
         for t in traces:
-            if t["fam"] == fam and t["events"] and t["events"][0].get("text"):
+            if t["fam"] == fam and t["events"] and (t["events"][0].get("res") or t["events"][0].get("secs")):
                 e = t["events"][0]
                 samples.append(dict(trace_id=t["id"], text=e.get("text"), observed=compact(
                     dict((k, e[k]) for k in ("res", "secs") if k in e))))
